@@ -35,6 +35,8 @@ pub mod c09f;
 pub mod c10;
 pub mod c13;
 pub mod c13n;
+#[cfg(not(kani))]
+pub mod cn;
 pub mod c19;
 #[cfg(feature = "facades")]
 pub mod c20;
@@ -71,6 +73,8 @@ pub fn registry() -> Vec<(&'static str, fn())> {
     v.extend_from_slice(c13::LIST);
     v.extend_from_slice(c13::fl::LIST);
     v.extend_from_slice(c13n::LIST);
+    #[cfg(not(kani))]
+    v.extend_from_slice(cn::LIST);
     #[cfg(feature = "facades")]
     { v.extend_from_slice(c20::LIST); v.extend_from_slice(c20::dz::LIST); v.extend_from_slice(c20::d::LIST); v.extend_from_slice(c20::zz::LIST); }
     #[cfg(feature = "codecs")]
